@@ -12,9 +12,9 @@ use std::sync::Arc;
 
 pub struct C39;
 
-/// file 0 is the root; the others are partials, two of them in a sub-directory
-const FILES: &[&str] = &["main.scss", "sub/_p.scss", "sub/_q.scss", "_r.scss"];
-const STEMS: &[&str] = &["main", "p", "q", "r"];
+/// file 0 is the root; 1..3 are partials, two of them in a sub-directory; 4 is a plain CSS file beside the root
+const FILES: &[&str] = &["main.scss", "sub/_p.scss", "sub/_q.scss", "_r.scss", "s.css"];
+const STEMS: &[&str] = &["main", "p", "q", "r", "s"];
 fn in_sub(i: usize) -> bool {
     i == 1 || i == 2
 }
@@ -45,6 +45,12 @@ pub struct Case {
 
 fn url(from: usize, l: &Load) -> String {
     let t = STEMS[l.target];
+    if l.target == 4 {
+        // the plain css file: with and without the explicit extension (an `@import "s.css"` is a plain CSS import
+        // when no such file exists, and a load when it does)
+        let opts: Vec<String> = if in_sub(from) { vec![format!("../{t}.css"), format!("{t}.css"), format!("../{t}")] } else { vec![format!("{t}.css"), t.to_string(), format!("./{t}.css")] };
+        return opts[l.spelling % opts.len()].clone();
+    }
     let opts: Vec<String> = match (in_sub(from), in_sub(l.target)) {
         (true, true) => vec![t.to_string(), format!("./{t}"), format!("_{t}"), format!("sub/{t}"), format!("../sub/{t}")],
         (true, false) => vec![format!("../{t}"), t.to_string(), format!("../_{t}.scss")],
@@ -154,9 +160,9 @@ fn compile(files: &BTreeMap<String, Vec<u8>>, fail_find: &[usize], fail_read: &[
 
 fn cases() -> impl Strategy<Value = Case> {
     let kind = || proptest::sample::select(vec![Kind::Use, Kind::Forward, Kind::Import, Kind::LoadCss]);
-    let loads = |from: usize| proptest::collection::vec((kind(), from + 1..4usize, 0usize..5).prop_map(|(kind, target, spelling)| Load { kind, target, spelling }), 0..=3);
+    let loads = |from: usize| proptest::collection::vec((kind(), from + 1..5usize, 0usize..5).prop_map(|(kind, target, spelling)| Load { kind, target, spelling }), 0..=3);
     let plans = proptest::collection::vec((proptest::collection::vec(0usize..40, 0..4), proptest::collection::vec((0usize..8, 0usize..60), 0..3)), 0..4);
-    (loads(0), loads(1), loads(2), plans).prop_map(|(a, b, c, plans)| Case { files: vec![a, b, c, vec![]], plans })
+    (loads(0), loads(1), loads(2), plans).prop_map(|(a, b, c, plans)| Case { files: vec![a, b, c, vec![], vec![]], plans })
 }
 
 impl Prop for C39 {
@@ -166,7 +172,7 @@ impl Prop for C39 {
         C39
     }
     fn rule(&self) -> String {
-        "acyclic graphs of 4 files (root, two partials in sub/, one partial beside the root) with 0..3 loads per file of all four kinds (@use, @forward, @import, meta.load-css) and several spellings of each URL (sibling, ./, ../, through the sub-directory, found only by the load-path fallback), compiled through a fault-injecting Loader. Per graph, exhaustively: a failure (Err from find_file) at every single find_file call index of the fault-free run, and a read failure on every opened file, at offset 0 and in the middle of the file; plus 0..3 random plans with several lookup and read failures. Oracle: whenever an injected failure was delivered, the result is an error (no panic, no Ok of any CSS); after every failing run the same sources with a working loader give the fault-free bytes again. Non-trivial: the fault-free run is Ok and a failure was delivered at a lookup index >= 1 or a read of a file other than the first; distinct by case".into()
+        "acyclic graphs of 5 files (root, two partials in sub/, one partial and one plain .css file beside the root, the latter loaded with and without its extension) with 0..3 loads per file of all four kinds (@use, @forward, @import, meta.load-css) and several spellings of each URL (sibling, ./, ../, through the sub-directory, found only by the load-path fallback), compiled through a fault-injecting Loader. Per graph, exhaustively: a failure (Err from find_file) at every single find_file call index of the fault-free run, and a read failure on every opened file, at offset 0 and in the middle of the file; plus 0..3 random plans with several lookup and read failures. Oracle: whenever an injected failure was delivered, the result is an error (no panic, no Ok of any CSS); after every failing run the same sources with a working loader give the fault-free bytes again. Non-trivial: the fault-free run is Ok and a failure was delivered at a lookup index >= 1 or a read of a file other than the first; distinct by case".into()
     }
     fn assumptions(&self) -> Vec<String> {
         vec!["an injected failure that the compilation never reaches (index beyond the calls made) is not a delivered failure; such runs must simply equal the fault-free run".into()]
